@@ -231,6 +231,7 @@ func genPrepTree(rng *Rng) (*TNode, []string) {
 		{"aaa", "modules/a", "link to a directory, named like a directory rule"},
 		{"modules/.terraform", "a", "link to a directory, named like a directory the default rules exclude"},
 		{"docs/aaa", "../modules", "link to a directory, named like a directory rule"},
+		{"modules/b/same", "../../outside/secret", "same target text as an escaping link, valid from this depth"},
 	}
 	nl := 0
 	switch k := rng.Intn(10); {
@@ -245,6 +246,12 @@ func genPrepTree(rng *Rng) (*TNode, []string) {
 		l := pool[rng.Intn(len(pool))]
 		put(l.at, tlink(l.to))
 		shapes = append(shapes, l.shape)
+		if l.at == "modules/b/same" {
+			// the text that stays inside from modules/b leaves the bundle from the package root
+			put("outside/secret", tfile("in-package", 0o644))
+			put("out", tlink("../../outside/secret"))
+			shapes = append(shapes, "out of the bundle")
+		}
 		if l.at == "chain1" {
 			put("chain2", tlink(rng.Pick([]string{"main.tf", "modules/b/x.tf", "../../outside/secret", "chain1"})))
 		}
